@@ -7,7 +7,7 @@ from .. import model as M
 ID = "C12"
 RULE = ("Programs with 1-4 splitter fields (mixed case / underscore names in every declaration order), salts "
         "(absent, empty, ASCII, non-ASCII, quotes, backslashes), values str/int/float/bool/None, single- and "
-        "two-branch, 16-64 groups; plus deterministic_proba on generated strings and RFC 1321 known answers. "
+        "two-branch, 16-64 groups; edge keys (empty key, falsy values); arbitrary generated programs (conditionals, tuples, hostile strings, shared fields) whose every result is predicted completely - route by the reference interpreter, position by the published scheme, slice by the exact partition - on fresh evaluators and on one long-lived evaluator recompile()d from program to program with unrelated compiles in between; plus deterministic_proba on generated strings and RFC 1321 known answers. "
         "Oracle: independent re-implementation of the published scheme + exact partition. Non-trivial = >=2 "
         "splitters or a salt, and >=16 groups; distinct by (program text, inputs).")
 ASSUMPTIONS = [
@@ -104,6 +104,87 @@ def judge(case):
             "sample": {"text": text[:300], "inputs": [M.dec_inputs(e) for e in case["inputs"][:2]]}}
 
 
+# --------------------------------------------------------------------------- arbitrary programs, fully predicted
+@st.composite
+def full_cases(draw):
+    """2-4 arbitrary generated programs (conditionals, tuples, hostile strings, shared fields) that one long-lived evaluator is
+    recompile()d through, with unrelated compiles in between"""
+    from .. import common
+
+    progs = []
+    for _ in range(draw(st.integers(2, 4))):
+        c = draw(gen.program_cases(min_splitters=1, max_splitters=3, n_inputs=(3, 6), tricky=draw(st.booleans()), max_depth=2,
+                                   wkind=draw(st.sampled_from(["nice", "nice", "wide", "ints"])), max_groups=draw(st.sampled_from([4, 4, 12]))))
+        if draw(st.integers(0, 3)) == 0:
+            # the same label on several slices of a statement, incl. ==-equal values of different type (the predicted slice
+            # decides the label, so labels need not be unique here)
+            for r in M.returns(c["prog"]["body"]):
+                pool = draw(st.sampled_from([["A", "B"], [1, 1.0, "1"], [0, -0.0, 0.0], ["x"]]))
+                for g in r["groups"]:
+                    if draw(st.booleans()):
+                        g["lit"] = M.lit_of(draw(st.sampled_from(pool)))
+        progs.append({"prog": c["prog"], "inputs": c["inputs"], "noise": c["noise"]})
+    return {"programs": progs, "live": draw(st.booleans())}
+
+
+def _expected(prog, env):
+    """the result predicted from the documentation alone: route (reference interpreter), position (published scheme), slice"""
+    from .. import refinterp
+
+    route = refinterp.run(prog, env)
+    if route[0] != "return":
+        return ("unroutable",), None
+    stmt = M.returns(prog["body"])[route[1]]
+    salt = prog["salt"]["v"] if prog["salt"] else None
+    fields = {n: env[n] for n in set(prog["splitters"])}
+    k = refbucket.published_position(salt, fields)
+    idx, ok, zone = refbucket.select([g["w"] for g in stmt["groups"]], k)
+    return ("group", [M.lit_value(stmt["groups"][i]["lit"]) for i in ok]), k
+
+
+def judge_full(case):
+    from .. import common
+
+    viol = []
+    tags = ["full-programs", "live-evaluator" if case["live"] else "fresh-evaluators"]
+    ev = None
+    keys = []
+    for item in case["programs"]:
+        prog = item["prog"]
+        text = M.render(prog)
+        tags += common.pre_noise(item)
+        try:
+            if ev is None or not case["live"]:
+                ev = sut.evaluator_mod().ExperimentEvaluator(text)
+            else:
+                ev.recompile(text)
+        except Exception as e:
+            viol.append("grammatical experiment does not compile: %s: %s | %s" % (type(e).__name__, e, text))
+            common.reset_after_violation()
+            break
+        for enc in item["inputs"]:
+            env = M.dec_inputs(enc)
+            try:
+                exp, k = _expected(prog, env)
+            except TypeError:
+                continue
+            act = sut.call(ev, env)
+            if exp[0] == "unroutable":
+                ok = act[0] == "unroutable"
+            else:
+                ok = act[0] == "group" and any(sut.same_value(act[1], v) for v in exp[1])
+            if not ok:
+                viol.append("predicted from the published scheme: %r (grid point %s), evaluator gave %r | inputs=%r | %s%s"
+                            % (exp, k, act, env, text, " | evaluator was recompile()d through %d programs" % len(keys) if case["live"] and keys else ""))
+        keys.append(text)
+        if viol:
+            break
+    if viol:
+        common.reset_after_violation()
+    return {"viol": viol[:4], "nontrivial": len(keys) >= 2, "tags": sorted(set(tags)), "key": [keys, case["live"]],
+            "sample": {"programs": [k[:160] for k in keys[:2]], "live": case["live"]}}
+
+
 def judge_proba(case):
     s = case["s"]
     try:
@@ -120,6 +201,8 @@ def judge_proba(case):
 
 def judge_case(record):
     c = record["case"]
+    if "programs" in c:
+        return judge_full(c)["viol"]
     return (judge_proba(c) if "s" in c else judge(c))["viol"]
 
 
@@ -156,6 +239,9 @@ def run(ctx, rec):
         if rec.violations:
             return
     runner.hyp_run(ctx, rec, "programs", cases(), judge, ctx.n(400, 2500))
+    if rec.violations:
+        return
+    runner.hyp_run(ctx, rec, "full-programs", full_cases(), judge_full, ctx.n(150, 1200))
     if rec.violations:
         return
     runner.hyp_run(ctx, rec, "proba", st.builds(lambda s: {"s": s}, st.text(alphabet=st.characters(exclude_categories=["Cs"]), max_size=60)),
